@@ -181,6 +181,13 @@ void dump_well(Dump& d, const Opm::Schedule& sched, std::size_t step, const std:
         const auto pc = w.productionControls(st);
         d.str("prod.cmode", pcmName(pc.cmode));
         using PC = Opm::Well::ProducerCMode;
+        // canonical: a well that has not had any control keyword yet (control mode undefined) and is not open has no control
+        // set to speak of: the first WCONPROD / WCONHIST clears whatever is there (clearControls), WCONINJE / WCONINJH set the BHP
+        // item unconditionally, and nothing evaluates the targets of a well without a mode.  Well(RstWell) always adds the BHP
+        // control with the default limit the writer stores (1 atm), exactly what handleWCONPROD would do first.  Compared for such
+        // a well: mode, status, and everything from the step of its first control keyword on.
+        const bool uncontrolled = (pc.cmode == PC::CMODE_UNDEFINED) && (w.getStatus() != Opm::Well::Status::OPEN);
+        if (!uncontrolled) {
         for (auto [m, nm] : { std::pair<PC, const char*>{PC::ORAT, "ORAT"}, {PC::WRAT, "WRAT"}, {PC::GRAT, "GRAT"}, {PC::LRAT, "LRAT"},
                               {PC::RESV, "RESV"}, {PC::BHP, "BHP"}, {PC::THP, "THP"}, {PC::GRUP, "GRUP"} })
             // canonical: the stored GRUP flag is a snapshot taken when WCONPROD/WCONINJE was read (a later WGRUPCON does not
@@ -190,6 +197,7 @@ void dump_well(Dump& d, const Opm::Schedule& sched, std::size_t step, const std:
         d.num("prod.liquid_rate", pc.liquid_rate); d.num("prod.resv_rate", pc.resv_rate);
         d.num("prod.bhp_limit", pc.bhp_limit); d.num("prod.thp_limit", pc.thp_limit);
         d.i("prod.vfp_table", pc.vfp_table_number); d.num("prod.alq", pc.alq_value);
+        }
         d.str("prod.whistctl", pcmName(p.whistctl_cmode));
         if (!w.predictionMode()) { d.num("prod.bhp_hist_limit", p.bhp_hist_limit); d.num("prod.thp_hist_limit", p.thp_hist_limit); }
     } else {
@@ -197,11 +205,15 @@ void dump_well(Dump& d, const Opm::Schedule& sched, std::size_t step, const std:
         d.str("inj.cmode", icmName(ic.cmode));
         d.str("inj.type", Opm::InjectorType2String(ic.injector_type));
         using IC = Opm::Well::InjectorCMode;
+        const bool uncontrolled = (ic.cmode == IC::CMODE_UNDEFINED) && (w.getStatus() != Opm::Well::Status::OPEN);
+        if (!uncontrolled)
         for (auto [m, nm] : { std::pair<IC, const char*>{IC::RATE, "RATE"}, {IC::RESV, "RESV"}, {IC::BHP, "BHP"}, {IC::THP, "THP"}, {IC::GRUP, "GRUP"} })
             d.b(std::string("inj.has.") + nm, m == IC::GRUP ? (w.isAvailableForGroupControl() && w.predictionMode()) : ic.hasControl(m));
-        d.num("inj.surface_rate", ic.surface_rate); d.num("inj.reservoir_rate", ic.reservoir_rate);
-        d.num("inj.bhp_limit", ic.bhp_limit); d.num("inj.thp_limit", ic.thp_limit);
-        d.i("inj.vfp_table", ic.vfp_table_number);
+        if (!uncontrolled) {
+            d.num("inj.surface_rate", ic.surface_rate); d.num("inj.reservoir_rate", ic.reservoir_rate);
+            d.num("inj.bhp_limit", ic.bhp_limit); d.num("inj.thp_limit", ic.thp_limit);
+            d.i("inj.vfp_table", ic.vfp_table_number);
+        }
     }
     {
         const auto& e = w.getEconLimits();
@@ -432,7 +444,9 @@ void dump_step(Dump& d, const Opm::Schedule& sched, std::size_t step, const Opm:
             // canonical: an entry without a positive guide rate behaves like no entry (GuideRate uses the model then)
             const bool fixed = gr.has_well(wname) && gr.well(wname).guide_rate > 0.0;
             d.b("has", fixed);
-            if (fixed) { const auto& t = gr.well(wname); d.num("guide_rate", t.guide_rate); d.i("target", static_cast<int>(t.target)); d.num("scaling", t.scaling_factor); }
+            // (the entry's target is a snapshot of Well::getGuideRatePhase() at WGRUPCON time — RAT of a well that only later becomes
+            //  an injector is never refreshed in the original; the well's own guide rate phase is compared with the well)
+            if (fixed) { const auto& t = gr.well(wname); d.num("guide_rate", t.guide_rate); d.num("scaling", t.scaling_factor); }
         }
         for (const auto& gname : sorted(sched.groupNames(step))) {
             d.at("guiderate.group", gname);
@@ -603,7 +617,9 @@ struct Sim {
             const auto& well = cs.sched.getWell(wname, sim_step);
             Opm::data::Well w;
             const bool prod = well.isProducer();
-            const bool open = well.getStatus() == Opm::Well::Status::OPEN;
+            bool open = well.getStatus() == Opm::Well::Status::OPEN;
+            if (prod ? (well.productionControls(st).cmode == Opm::Well::ProducerCMode::CMODE_UNDEFINED)
+                     : (well.injectionControls(st).cmode == Opm::Well::InjectorCMode::CMODE_UNDEFINED)) open = false;
             const double sgn = prod ? -1.0 : 1.0;
             const double qo = open ? rng.unit() * 1e-2 : 0.0, qw = open ? rng.unit() * 1e-2 : 0.0, qg = open ? rng.unit() * 5.0 : 0.0;
             const bool inj_w = !prod && well.injectorType() == Opm::InjectorType::WATER;
@@ -615,6 +631,9 @@ struct Sim {
             w.thp = 1.0e5 * (10.0 + 50.0 * rng.unit());
             w.temperature = 0.0;
             w.dynamicStatus = well.getStatus();
+            const bool has_mode = prod ? (well.productionControls(st).cmode != Opm::Well::ProducerCMode::CMODE_UNDEFINED)
+                                       : (well.injectionControls(st).cmode != Opm::Well::InjectorCMode::CMODE_UNDEFINED);
+            if (!has_mode) w.dynamicStatus = Opm::Well::Status::SHUT;      // a simulator cannot operate a well that has no control mode yet
             w.current_control.isProducer = prod;
             if (prod) {
                 auto cm = well.productionControls(st).cmode;
@@ -1084,7 +1103,7 @@ bool g_with_sicd = true;      // WSEGSICD segments in the generated multi-segmen
 
 struct GWell {
     std::string name, group; int i, j, k0, nc; bool producer, history; char injphase; int born; bool msw; bool shut;
-    double orat, wrat, grat, bhp, efac; bool bottom_up; bool nocontrol; int sattab;
+    double orat, wrat, grat, bhp, efac; bool bottom_up; int ctrl_from; int sattab;
 };
 
 GenModel make_model(vh::Rng& rng, int c)
@@ -1125,7 +1144,7 @@ GenModel make_model(vh::Rng& rng, int c)
         ws.msw = with_msw && ws.born == 0 && (w <= 1 ? rng.coin(2, 3) : rng.coin());
         if (ws.msw && nz >= 3) { ws.nc = rng.range(2, std::min(4, nz)); ws.k0 = rng.range(0, nz - ws.nc); }
         ws.bottom_up = rng.coin(1, 3);
-        ws.nocontrol = false;   // wells without any control keyword make the restart throw: fixed deck design.d/C05.repro/NOCONTROL.DATA
+        ws.ctrl_from = ((w >= 2) && rng.coin(1, 6)) ? std::min(nblocks - 1, ws.born + rng.range(1, 2)) : ws.born;   // first control keyword later than WELSPECS / COMPDAT
         ws.sattab = rng.coin(1, 3) ? rng.range(1, 3) : 0;
         ws.shut = rng.coin(1, 6);
         ws.orat = 100.0 * rng.range(1, 50); ws.wrat = 50.0 * rng.range(1, 40); ws.grat = 1000.0 * rng.range(1, 90);
@@ -1177,9 +1196,10 @@ GenModel make_model(vh::Rng& rng, int c)
                   << num(0.01 * rng.range(1, 9)) << " 5 -1 " << (rng.coin() ? num(100.0 * rng.range(1, 30)) : std::string("1*")) << " 'OPEN' /\n/\n";
         }
     };
-    auto controls = [&](std::ostringstream& o, const std::vector<const GWell*>& ws_all, double scale, bool uda_ok) {
+    auto controls = [&](std::ostringstream& o, const std::vector<const GWell*>& ws_all, double scale, bool uda_ok, int kblock) {
         std::vector<const GWell*> ws;
-        for (auto* w : ws_all) if (!w->nocontrol) ws.push_back(w);
+        for (auto* w : ws_all) if (w->ctrl_from <= kblock) ws.push_back(w);
+        for (auto& w : wells) if (w.ctrl_from == kblock && w.born < kblock && std::find(ws.begin(), ws.end(), &w) == ws.end()) ws.push_back(&w);
         bool any;
         any = false; for (auto* w : ws) any = any || (w->producer && !w->history);
         if (any) {
@@ -1230,6 +1250,7 @@ GenModel make_model(vh::Rng& rng, int c)
     };
 
     m.blocks.resize(nblocks);
+    std::set<std::string> prd_members;
     for (int k = 0; k < nblocks; ++k) {
         std::ostringstream o;
         const double scale = 1.0 + 0.25 * k;
@@ -1256,7 +1277,7 @@ GenModel make_model(vh::Rng& rng, int c)
             if (rng.coin()) o << " UNITS WUORAT 'SM3/DAY' /\n";
             o << "/\n";
         }
-        controls(o, k == 0 ? live : (rng.coin() ? live : fresh), scale, with_udq);
+        controls(o, k == 0 ? live : (rng.coin() ? live : fresh), scale, with_udq, k);
         if (with_gcon && (k == 0 || rng.coin(1, 3))) {
             o << "GCONPROD\n";
             for (auto& g : groups) if (rng.coin(2, 3)) gconprod(o, g, scale, with_udq);
@@ -1297,9 +1318,15 @@ GenModel make_model(vh::Rng& rng, int c)
         }
         if (with_wlist && (k == 0 || rng.coin(1, 3)) && !live.empty()) {
             o << "WLIST\n";
-            if (k == 0) { o << " '*PRD' 'NEW'"; for (auto* w : live) if (w->producer) o << " '" << w->name << "'"; o << " /\n"; }
+            if (k == 0) { o << " '*PRD' 'NEW'"; for (auto* w : live) if (w->producer) { o << " '" << w->name << "'"; prd_members.insert(w->name); } o << " /\n"; }
             const auto* w = live[rng.below(live.size())];
-            if (k > 0) o << " '*PRD' '" << (rng.coin() ? "ADD" : "DEL") << "' '" << w->name << "' /\n";
+            if (k > 0) {
+                // a list is never emptied: the file keeps well lists per member, so an emptied list does not exist after the restart
+                // and a later WLIST ADD / DEL on it throws (recorded: design.d/C05.repro/EMPTY_WLIST.DATA)
+                const bool del = rng.coin() && !(prd_members.count(w->name) && prd_members.size() < 2);
+                o << " '*PRD' '" << (del ? "DEL" : "ADD") << "' '" << w->name << "' /\n";
+                if (del) prd_members.erase(w->name); else prd_members.insert(w->name);
+            }
             if (rng.coin()) o << " '*LST" << k << "' 'NEW' '" << w->name << "' /\n";
             o << "/\n";
         }
@@ -1323,8 +1350,10 @@ GenModel make_model(vh::Rng& rng, int c)
             //  ORIGINAL schedule — recorded in design.d/C05.md, reproduction design.d/C05.repro/UDA_WELTARG.DATA)
             if (w->producer && !w->history) { const bool orat = !with_udq && rng.coin(); o << "WELTARG\n '" << w->name << "' '" << (orat ? "ORAT" : "BHP") << "' " << num(orat ? w->orat * 0.5 : w->bhp + 10) << " /\n/\n"; }
         }
-        if (k > 0 && rng.coin() && !live.empty()) {
-            const auto* w = live[rng.below(live.size())];
+        std::vector<const GWell*> ctl;       // wells that have had a control keyword: only those are opened / shut by WELOPEN
+        for (auto* w : live) if (w->ctrl_from <= k) ctl.push_back(w);
+        if (k > 0 && rng.coin() && !ctl.empty()) {
+            const auto* w = ctl[rng.below(ctl.size())];
             const int what = rng.range(0, 2);
             if (what == 0) o << "WELOPEN\n '" << w->name << "' '" << (rng.coin() ? "SHUT" : "OPEN") << "' /\n/\n";
             else if (what == 1) o << "WELOPEN\n '" << w->name << "' '" << (rng.coin() ? "SHUT" : "OPEN") << "' " << w->i + 1 << " " << w->j + 1 << " " << w->k0 + 1 << " /\n/\n";
@@ -1341,7 +1370,7 @@ GenModel make_model(vh::Rng& rng, int c)
             else o << " WOPR '" << wells[0].name << "' < " << num(qthr) << " /\n";
             o << "/\n";
             const int act = rng.range(0, 5);
-            if (act == 0) o << "WELOPEN\n '" << (cond == 0 ? std::string("?") : w->name) << "' '" << (rng.coin() ? "SHUT" : "OPEN") << "' /\n/\n";
+            if (act == 0) o << "WELOPEN\n '" << (cond == 0 ? std::string("?") : w->name) << "' '" << ((rng.coin() || cond == 0 || w->ctrl_from > k) ? "SHUT" : "OPEN") << "' /\n/\n";
             else if (act == 1 && w->producer && !w->history && !with_udq) o << "WELTARG\n '" << w->name << "' 'ORAT' " << num(w->orat * 0.3) << " /\n/\n";
             else if (act == 2) { o << "GCONPROD\n"; gconprod(o, groups[rng.below(groups.size())], 0.5, false); o << "/\n"; }
             else if (act == 3) o << "WEFAC\n '" << w->name << "' " << num(0.05 * rng.range(8, 19)) << " /\n/\n";
@@ -1392,7 +1421,8 @@ int run_prop(uint64_t seed, const std::string& tier, const std::string& outdir)
     }
     // fixed reproduction decks of recorded findings (every difference under one key)
     for (auto [file, key, rs] : { std::tuple<const char*, const char*, int>{"NOCONTROL.DATA", "rstsched.well-without-controls", 2},
-                                  {"UDA_WELTARG.DATA", "sched.uda-replaced-by-weltarg", 2} }) {
+                                  {"UDA_WELTARG.DATA", "sched.uda-replaced-by-weltarg", 2},
+                                  {"EMPTY_WLIST.DATA", "rstsched.emptied-well-list", 2} }) {
         const std::string path = std::string(VERIF_DIR) + "/design.d/C05.repro/" + file;
         try {
             const auto deck = parse(path, true);
